@@ -625,7 +625,7 @@ fn process(g: &mut CaState, idx: usize, head: &Head, path: &str, pos: &Pos, oid:
 				"newOrder": g.url("/new-order"),
 				"revokeCert": g.url("/revoke"),
 				"keyChange": g.url("/key-change"),
-				"meta": {"externalAccountRequired": g.plan.eab.is_some()},
+				"meta": {"externalAccountRequired": g.plan.eab.is_some() && g.plan.eab_required},
 			});
 			if let Some(Action::MissingField(f)) = fault {
 				remove_field(&mut d, f);
@@ -800,6 +800,7 @@ fn process(g: &mut CaState, idx: usize, head: &Head, path: &str, pos: &Pos, oid:
 			let mut eab_kid = None;
 			if let Some(eab) = g.plan.eab.clone() {
 				match p.get("externalAccountBinding") {
+					None if !g.plan.eab_required => {}
 					None => {
 						g.event(idx, "eab-missing", "externalAccountRequired but no binding sent".into());
 						return Resp::problem("externalAccountRequired", 400, "binding required");
